@@ -269,7 +269,8 @@ partial def eqSearch (queue : Array ((Re × Re) × List Nat)) (i : Nat)
 def equivVerdict (c : Case) (i j : Nat) (fuel : Nat := 50000) : String :=
   match c.hirs[i]?, c.hirs[j]? with
   | some hi, some hj =>
-    if hi.hasLook || hj.hasLook then "LOOK" else
+    if hi.hasLook || hj.hasLook then
+      (if LK.looksOK hi && LK.looksOK hj then LK.equivVerdictC (LK.lowerL hi) (LK.lowerL hj) fuel else "LOOK") else
     let r := hi.lower
     let s := hj.lower
     let p0 := (norm r, norm s)
